@@ -133,6 +133,15 @@ Theorem C13_run_model_by_hand : forall k max_steps, run_model k max_steps = run_
 Proof. exact run_model_by_hand. Qed.
 Print Assumptions C13_run_model_by_hand.
 
+(* the model's `nth i vals SNone` never falls back to its default, i.e. the code's values[positions[-1]]
+   never raises IndexError: every model_vars list is as long as _collection_steps *)
+Theorem C13_no_index_error : forall k max_steps,
+  let d := b_d (run_model k max_steps) in
+  (forall n vals, In (n, vals) (d_mvars d) -> length vals = length (d_csteps d)) /\
+  (forall s i, last_pos s (d_csteps d) = Some i -> forall n vals, In (n, vals) (d_mvars d) -> (i < length vals)%nat).
+Proof. exact no_index_error. Qed.
+Print Assumptions C13_no_index_error.
+
 (* non-vacuity: a 2 x 3 design with 2 iterations; a model that collects at construction and in step,
    stops at step 3, max_steps 5, period 2: rows for steps 0, 2 and the last collection 3 *)
 Example C13_example :
